@@ -1,8 +1,157 @@
 import GraafVerif.Driver.Common
-/-! Driver handlers for property C05 (ops the harness module `ops/c05.rs` emits). -/
-namespace GraafVerif.Driver.H05
-open GraafVerif GraafVerif.Driver
+import GraafVerif.Driver.H04
+import GraafVerif.Model.Bfs
+/-!
+Driver handlers for the BFS half of property C05 (ops of `harness/src/ops/c05.rs`):
 
-def handlers : List (String × Handler) := []
+  bfs_pred_iter          <desc> <sources>        =>  panic | [[pred v] …]      (pred = none | id)
+  bfs_pred_predecessors  <desc> <sources>        =>  panic | [pred …]
+  bfs_pred_shortest_path <desc> <sources> <tgt>  =>  panic | none | [v …]
+  bfs_pred_cycles        <desc> <sources>        =>  panic | [[v …] …]
+
+`tgt` ∈ `[eq t] [in [..]] never always`.  Oracles judge the implementation's output with the
+naive `hopDistB`; the model is only used for the correspondence.
+-/
+namespace GraafVerif.Driver.H05
+open GraafVerif GraafVerif.Driver GraafVerif.Bfs GraafVerif.Driver.H04
+
+def parseTgt : V → Option (Nat → Bool)
+  | .l [.a "eq", t] => do let t ← V.nat? t; pure (fun v => v == t)
+  | .l [.a "in", ts] => do let ts ← V.listOf? V.nat? ts; pure (fun v => ts.contains v)
+  | .a "always" => some (fun _ => true)
+  | .a "never" => some (fun _ => false)
+  | _ => none
+
+def isArc (c : Ctx) (u v : Nat) : Bool := (c.g.out u).contains v
+
+def walkB (c : Ctx) : List Nat → Bool
+  | [] => true
+  | [_] => true
+  | u :: v :: r => isArc c u v && walkB c (v :: r)
+
+/-- The C05 condition on one `(vertex, recorded predecessor)` pair. -/
+def predEntryOk (c : Ctx) (v : Nat) (p : Option Nat) : Option String :=
+  match c.dist v, p with
+  | none, none => none
+  | none, some _ => some s!"unreachable vertex {v} has a predecessor"
+  | some _, none => if c.S.contains v then none else some s!"reachable non-source {v} has no predecessor"
+  | some dv, some u =>
+    if c.S.contains v then some s!"source {v} has a predecessor"
+    else if !isArc c u v then some s!"{u}->{v} is not an arc"
+    else if c.dist u != some (dv - 1) || dv == 0 then some s!"dist({u}) + 1 != dist({v})"
+    else none
+
+def firstSome {α : Type} (f : α → Option String) : List α → Option String
+  | [] => none
+  | x :: xs => match f x with
+    | some e => some e
+    | none => firstSome f xs
+
+def ofOptPair (p : Nat × Option Nat) : V := .l [V.ofOptNat p.2, V.ofNat p.1]
+
+def hPredIter : Handler := fun _ args obs =>
+  match args with
+  | [desc, srcs] => do
+    let c ← mkCtx desc srcs
+    let model := resV (fun xs => V.l (xs.map ofOptPair)) (bfsPred c.g c.S)
+    let pf : Option String :=
+      match obs with
+      | [v] => match V.listOf? (V.pair? (V.opt? V.nat?) V.nat?) v with
+        | some ps =>
+          match checkOrder c (ps.map (·.2)) with
+          | some e => some e
+          | none => firstSome (fun (p : Option Nat × Nat) => predEntryOk c p.2 p.1) ps
+        | none => some "the call panicked / returned no list"
+      | _ => some "malformed output"
+    pure (finish c obs model pf)
+  | _ => none
+
+def hPredecessors : Handler := fun _ args obs =>
+  match args with
+  | [desc, srcs] => do
+    let c ← mkCtx desc srcs
+    let model := resV (fun pr => V.l (pr.map V.ofOptNat)) (predecessors c.g c.S)
+    let pf : Option String :=
+      match obs with
+      | [v] => match V.listOf? (V.opt? V.nat?) v with
+        | some pr =>
+          if pr.length != c.d.order then some "predecessor vector has the wrong length"
+          else firstSome (fun (vp : Nat × Option Nat) => predEntryOk c vp.1 vp.2)
+                 ((List.range pr.length).zip pr)
+        | none => some "the call panicked / returned no vector"
+      | _ => some "malformed output"
+    pure (finish c obs model pf)
+  | _ => none
+
+def hShortestPath : Handler := fun _ args obs =>
+  match args with
+  | [desc, srcs, tgt] => do
+    let c ← mkCtx desc srcs
+    let isT ← parseTgt tgt
+    let model := resV (fun (o : Option (List Nat)) => match o with
+      | none => V.a "none" | some p => V.ofNats p) (shortestPath c.g c.S isT)
+    -- reachable targets and the minimum of their hop distances
+    let tds := (List.range c.d.order).filterMap (fun v => if isT v then c.dist v else none)
+    let best := tds.foldl (fun (m : Option Nat) x => match m with | none => some x | some y => some (min x y)) none
+    let pf : Option String :=
+      match obs, best with
+      | [.a "none"], none => none
+      | [.a "none"], some _ => some "None although a reachable vertex satisfies the predicate"
+      | [v], best =>
+        match V.listOf? V.nat? v with
+        | none => some "the call panicked / returned no path"
+        | some p =>
+          match best, p.head?, p.getLast? with
+          | none, _, _ => some "a path although no reachable vertex satisfies the predicate"
+          | some b, some s, some t =>
+            if !c.S.contains s then some "the path does not start at a source"
+            else if !isT t then some "the path does not end at a target"
+            else if !p.all (· < c.d.order) then some "the path leaves the digraph"
+            else if !walkB c p then some "the path is not a walk of the digraph"
+            else if p.length - 1 != b then some s!"path length {p.length - 1} is not the minimum {b} over all targets"
+            else none
+          | some _, _, _ => some "empty path"
+      | _, _ => some "malformed output"
+    let kind := match best with
+      | none => "sp-none"
+      | some 0 => "sp-source-is-target"
+      | some _ => if tds.length > 1 then "sp-competing-targets" else "sp-one-target"
+    let v := finish c obs model pf
+    pure { v with tags := v.tags ++ [kind] }
+  | _ => none
+
+/-- Elementary cycle as a vertex list: non-empty, distinct vertices, consecutive arcs, closing arc. -/
+def elemCycleB (c : Ctx) (p : List Nat) : Bool :=
+  match p.head?, p.getLast? with
+  | some a, some z => nodupB p && p.all (· < c.d.order) && walkB c p && isArc c z a
+  | _, _ => false
+
+def hCycles : Handler := fun _ args obs =>
+  match args with
+  | [desc, srcs] => do
+    let c ← mkCtx desc srcs
+    let model := resV (fun cs => V.l (cs.map V.ofNats)) (cycles c.g c.S)
+    let parsed := match obs with
+      | [v] => V.listOf? (V.listOf? V.nat?) v
+      | _ => none
+    let pf : Option String :=
+      match parsed with
+      | some cs =>
+        match cs.find? (fun p => !elemCycleB c p) with
+        | some p => some s!"{V.ofNats p} is not an elementary cycle"
+        | none => none
+      | none => some "the call panicked / returned no list"
+    let kind := match parsed with
+      | some [] => "cycles0"
+      | some _ => "cycles>0"
+      | none => "cycles-panic"
+    let v := finish c obs model pf
+    -- a traversal that meets a cycle is the interesting case here
+    pure { v with tags := v.tags ++ [kind], nontrivial := v.nontrivial && kind == "cycles>0" }
+  | _ => none
+
+def handlers : List (String × Handler) :=
+  [("bfs_pred_iter", hPredIter), ("bfs_pred_predecessors", hPredecessors),
+   ("bfs_pred_shortest_path", hShortestPath), ("bfs_pred_cycles", hCycles)]
 
 end GraafVerif.Driver.H05
